@@ -1,4 +1,5 @@
 import JominiModel.Proofs.BinReader
+import JominiModel.Proofs.TextFault
 /-
 C20 — Underlying I/O failures surface as errors, never as silently wrong results.
 
